@@ -69,6 +69,50 @@ def measured_matrix(case):
     return A
 
 
+class _Routine:
+    """Callable object / bound-method forms of an SVD routine."""
+
+    def __init__(self, base):
+        self.base = base
+
+    def __call__(self, matrix, n_eigenvecs=None, **kwargs):
+        return self.base(matrix, n_eigenvecs=n_eigenvecs, **kwargs)
+
+    def run(self, matrix, n_eigenvecs=None, **kwargs):
+        return self.base(matrix, n_eigenvecs=n_eigenvecs, **kwargs)
+
+
+def method_argument(opt, kw):
+    """The `method` argument of svd_interface in the form opt["form"] (SVDContract.Forms); may move the sketch
+    options from `kw` into a functools.partial."""
+    import functools
+    from tensorly.tenalg import svd as tsvd
+    form = opt.get("form", "lambda" if opt["method"] == "callable" else "name")
+    if form == "name":
+        return opt["method"]
+    base = economy_callable if opt["method"] == "callable" else getattr(tsvd, opt["method"])
+    if form == "libfun":
+        return base
+    if form == "partial":
+        bound = {k: kw.pop(k) for k in ("n_oversamples", "n_iter") if k in kw}
+        return functools.partial(base, **bound)
+    if form == "lambda":
+        return base if opt["method"] == "callable" else (lambda m, n_eigenvecs=None, **k: base(m, n_eigenvecs, **k))
+    if form == "kwonly":
+        def kwonly(matrix, *, n_eigenvecs=None, **options):
+            return base(matrix, n_eigenvecs=n_eigenvecs, **options)
+        return kwonly
+    if form == "second":
+        def second(matrix, full_matrices=False, n_eigenvecs=None, **options):
+            return base(matrix, n_eigenvecs=n_eigenvecs, **options)
+        return second
+    if form == "object":
+        return _Routine(base)
+    if form == "bound":
+        return _Routine(base).run
+    raise ValueError(form)
+
+
 def _call(A, opt, seed):
     from tensorly.tenalg import svd as tsvd
     kw = {"n_eigenvecs": None if opt["k"] == 0 else opt["k"], "random_state": seed}
@@ -79,7 +123,7 @@ def _call(A, opt, seed):
         kw["mask"] = np.ones(A.shape)
     if opt["via"] == "direct":
         return getattr(tsvd, opt["method"])(A, **kw)
-    method = economy_callable if opt["method"] == "callable" else opt["method"]
+    method = method_argument(opt, kw)
     if opt["nonneg"] != "off":
         kw["non_negative"] = NN_ARG[opt["nonneg"]]
     return tsvd.svd_interface(A, method=method, flip_sign=opt["flip"] != "off",
@@ -121,6 +165,7 @@ def one_run(A, opt, seed):
            "degenerate": False}
     fin = out["fin"]
     out["pow2"] = int(opt.get("pow2", 0))
+    out["form"] = opt.get("form", "lambda" if opt["method"] == "callable" else "name")
     unit = 2.0 ** out["pow2"]
     try:
         with np.errstate(all="ignore"):
@@ -212,6 +257,16 @@ def all_opts(m, n, options):
                                 out.append(dict(base, flip="off", nonneg="off", via=via, pow2=p2))
     for o in out:
         o.setdefault("pow2", 0)
+        o["form"] = "lambda" if o["method"] == "callable" else "name"
+    # the other ways of handing the same routine to svd_interface (SVDContract.Forms)
+    for meth in sorted(options["methods"]):
+        for form in sorted(options["forms"]):
+            if form == ("lambda" if meth == "callable" else "name") or (meth == "callable" and form in ("name", "libfun")):
+                continue
+            for over in ([0, 5, 10] if meth == "randomized_svd" else [5]):
+                for k in (0, 1, 2):
+                    out.append({"method": meth, "over": over, "niter": 2, "mask": "off", "k": k, "flip": "off", "nonneg": "off",
+                                "via": "interface", "pow2": 0, "form": form})
     return out
 
 
@@ -267,6 +322,14 @@ def run(chk, opts):
                     cases.append({"id": "C05/m/%dx%d/%s/%05d" % (m, n, fam, k),
                                   "cfg": {"op": "measured", "m": m, "n": n, "fam": fam, "rank": rk}, "full": False,
                                   "shift": shift, "mseed": rng.randrange(2**31), "seed": rng.randrange(2**31), "opts": ao})
+    # dense matrices whose rank is covered only because the requested oversampling is really used: every way of handing
+    # randomized_svd to the interface must forward n_oversamples (2 + 10 >= 12), the other routines ride along
+    for j, (m, n, fam, rk) in enumerate([(12, 14, "generic", 12), (14, 12, "generic", 12), (13, 16, "lowrank", 12), (12, 12, "integer", 12)]):
+        for rep in range(int(opts.get("reps", 2))):
+            ao = [o for o in all_opts(m, n, options) if o["k"] in (1, 2) and o["flip"] == "off" and o["nonneg"] == "off" and o["mask"] == "off"
+                  and o["pow2"] == 0 and o["niter"] == 2 and o["via"] == "interface" and (o["method"] != "randomized_svd" or o["over"] == 10)]
+            cases.append({"id": "C05/w/%dx%d/%s/%d" % (m, n, fam, rep), "cfg": {"op": "measured", "m": m, "n": n, "fam": fam, "rank": rk},
+                          "full": False, "shift": 0.0, "mseed": rng.randrange(2**31), "seed": rng.randrange(2**31), "opts": ao})
     chk.add_cases(cases)
     events = execute_cases(execute, cases, repo=chk.repo, chunksize=2)
     nruns = sum(len(e.get("runs", [])) for e in events)
@@ -280,7 +343,7 @@ def run(chk, opts):
                 % (n_exact, len(mats), per, len(cases) - n_exact))
     for e in events:
         for rr in e.get("runs", []):
-            chk.distinct.add((e["cfg"]["m"], e["cfg"]["n"], rr["method"], rr["over"], rr["niter"], rr["mask"], rr["pow2"], rr["k"], rr["flip"], rr["nonneg"], rr["via"]))
+            chk.distinct.add((e["cfg"]["m"], e["cfg"]["n"], rr["method"], rr["over"], rr["niter"], rr["mask"], rr["pow2"], rr["form"], rr["k"], rr["flip"], rr["nonneg"], rr["via"]))
     for e in events[:1] + events[-1:]:
         if "runs" in e:
             chk.sample(dict(e, runs=e["runs"][:3]))
@@ -315,11 +378,11 @@ def report(chk, ev, case, clause, rest):
         _violation(chk, ev["id"], clause, dict(case, opts=[]), dict(ev, runs=[]))
         return
     run_ = ev["runs"][ridx - 1]
-    opt = {k: run_[k] for k in ("method", "over", "niter", "mask", "k", "flip", "nonneg", "via", "pow2")}
+    opt = {k: run_[k] for k in ("method", "over", "niter", "mask", "k", "flip", "nonneg", "via", "pow2", "form")}
     c = dict(case, opts=[opt], full=False, run=opt, derived=derived(ev["cfg"], opt))
     c["derived"]["negmean"] = bool(ev.get("negmean", sum(ev.get("data", [0])) < 0))
     c["derived"]["hasneg"] = bool(ev.get("hasneg", min(ev.get("data", [0])) < 0))
-    _violation(chk, "%s#%s-%s-k%d-o%d-i%d-p%d-%s-%s-%s-%s" % (ev["id"], ridx, opt["method"], opt["k"], opt["over"], opt["niter"], opt["pow2"], opt["mask"], opt["flip"], opt["nonneg"], opt["via"]),
+    _violation(chk, "%s#%s-%s-%s-k%d-o%d-i%d-p%d-%s-%s-%s-%s" % (ev["id"], ridx, opt["method"], opt["form"], opt["k"], opt["over"], opt["niter"], opt["pow2"], opt["mask"], opt["flip"], opt["nonneg"], opt["via"]),
                clause, c, dict(ev, runs=[run_]), {"degenerate_pair": bool(run_.get("degenerate"))})
 
 
